@@ -41,71 +41,44 @@ def harness(name, package=NETCONF, **kw):
 
 CHECKS["C06"] = {
     "crates": ["netconf"],
-    "explanation": "tls/junos_local Receiver::recv and the SSH pump loop are executed symbolically over every 2-message stream with "
-                   "payloads of 0..2 bytes over {x,],>} and every segmentation into 1..4 non-empty chunks (all cut positions, including the "
-                   "five inside each delimiter, and several messages per chunk).",
-    "assumptions": ["reads deliver exactly the scripted chunks; TLS record / SSH packet reassembly below read_buf / ChannelMsg::Data is not modelled"],
+    "explanation": "tls::Receiver::recv and junos_local::Receiver::recv (real bytes::BytesMut, memchr model) are executed symbolically over "
+                   "scripted streams: (quick) one message with payload 0..2 bytes over {x,],>} cut into 1..3 non-empty chunks at every "
+                   "position - including the five positions inside the delimiter - and two messages with payload 0..1 bytes in 1..2 chunks "
+                   "(several messages per read); (thorough) two messages, payload 0..2, 1..4 chunks.  Each recv() must return exactly the "
+                   "next delimiter-terminated message after exactly the reads needed to deliver its last delimiter byte.",
+    "assumptions": ["reads deliver exactly the scripted chunks; TLS record reassembly below read_buf is not modelled",
+                    "BytesMut::reserve_inner (grow path) replaced by a stub that asserts it is unreachable; the 1 KiB receive buffer is replaced by a 32-byte one",
+                    "the SSH pump (transport/ssh.rs) is NOT covered: its harness (c06_ssh_segmentation, thorough tier) did not finish in 90 min"],
     "harnesses": [
-        harness("c06_tls_segmentation", functions=["transport::tls::Receiver::recv", "bytes::BytesMut", "memchr::memmem::Finder::find (model)"],
-                bounds="2 messages, payload<=2 bytes over {x,],>}, <=4 chunks, 1 poll per recv (every read is answered at once), 32-byte buffer", loops=FRAMING_LOOPS, stubbing=True),
-        harness("c06_junos_local_segmentation", functions=["transport::junos_local::Receiver::recv", "bytes::BytesMut", "memchr::memmem::Finder::find (model)"],
-                bounds="as c06_tls_segmentation", loops=FRAMING_LOOPS, stubbing=True),
-        harness("c06_ssh_segmentation", functions=["transport::ssh::Ssh::connect (pump task)", "transport::ssh::Receiver::recv", "tokio::select!/mpsc (model)"],
-                bounds="2 messages, payload<=2 bytes, <=4 ChannelMsg::Data packets, one activation of the pump task", loops=SSH_LOOPS, stubbing=True,
-                tiers=["thorough"], timeout={"thorough": 5400}, mem_gb=30),
+        harness("c06_tls_one_message_cuts", functions=["transport::tls::Receiver::recv", "bytes::BytesMut", "memchr::memmem::Finder::find (model)"],
+                bounds="1 message, payload<=2 bytes over {x,],>}, 1..3 chunks, 1 poll", loops=FRAMING_LOOPS, stubbing=True, timeout={"quick": 900, "thorough": 2400}),
+        harness("c06_tls_two_messages", functions=["transport::tls::Receiver::recv"],
+                bounds="2 messages, payload<=1 byte, 1..2 chunks", loops=FRAMING_LOOPS, stubbing=True, timeout={"quick": 900, "thorough": 2400}),
+        harness("c06_junos_local_one_message_cuts", functions=["transport::junos_local::Receiver::recv"],
+                bounds="as c06_tls_one_message_cuts", loops=FRAMING_LOOPS, stubbing=True, timeout={"quick": 900, "thorough": 2400}),
+        harness("c06_junos_local_two_messages", functions=["transport::junos_local::Receiver::recv"],
+                bounds="as c06_tls_two_messages", loops=FRAMING_LOOPS, stubbing=True, timeout={"quick": 900, "thorough": 2400}),
+        harness("c06_tls_segmentation", functions=["transport::tls::Receiver::recv"],
+                bounds="2 messages, payload<=2 bytes, 1..4 chunks", loops=FRAMING_LOOPS, stubbing=True, tiers=["thorough"], timeout={"thorough": 3000}, mem_gb=30),
+        harness("c06_junos_local_segmentation", functions=["transport::junos_local::Receiver::recv"],
+                bounds="2 messages, payload<=2 bytes, 1..4 chunks", loops=FRAMING_LOOPS, stubbing=True, tiers=["thorough"], timeout={"thorough": 3000}, mem_gb=30),
     ],
 }
 
 CHECKS["C07"] = {
     "crates": ["netconf"],
-    "explanation": "",
-    "assumptions": [],
+    "explanation": "tls/junos_local Receiver::recv executed symbolically over: a strict prefix (possibly empty, possibly ending inside the "
+                   "delimiter) of one message, then orderly close (every further read returns 0) or abrupt close (every further read fails). "
+                   "recv() must complete with an error; a loop that keeps reading is detected by the stream model's overrun flag (reads after "
+                   "close are answered at most twice, then Pending).",
+    "assumptions": ["reads deliver exactly the scripted chunks; close is what read_buf reports (Ok(0) / Err)",
+                    "session-level propagation (pending RPCs fail once recv() fails) follows from Session::recv's `?` and is exercised by the C05 harnesses, not here",
+                    "the SSH pump (transport/ssh.rs) is NOT covered: c07_ssh_disconnect (thorough tier) did not finish in 90 min"],
     "harnesses": [
         harness("c07_tls_disconnect", functions=["transport::tls::Receiver::recv"],
-                bounds="strict prefix of one message then Eof/Abort, 1 poll, reads after close answered at most twice then Pending (overrun flag), 32-byte buffer", loops=FRAMING_LOOPS, stubbing=True),
-        harness("c07_junos_local_disconnect", functions=["transport::junos_local::Receiver::recv"], bounds="as c07_tls_disconnect", loops=FRAMING_LOOPS, stubbing=True),
-        harness("c07_ssh_disconnect", functions=["transport::ssh::Ssh::connect (pump task)", "transport::ssh::Receiver::recv"],
-                bounds="strict prefix of one message, then Eof+gone / Close+gone / gone; wait() answers None at most twice then Pending (overrun flag)", loops=SSH_LOOPS, stubbing=True,
-                tiers=["thorough"], timeout={"thorough": 5400}, mem_gb=30),
-    ],
-}
-
-C09_BOUNDS = "every subset of 13 capability bits (with every combination of the url schemes file/ftp/http) x every parameter choice of the operation, decided in one query"
-CHECKS["C09"] = {
-    "crates": ["netconf"],
-    "explanation": "Operation::new and every builder method / finish() of each operation are executed symbolically against a Context whose "
-                   "server capability set is built from 13 symbolic bits; the result (request built / refused) is compared with the RFC 6241 "
-                   "section 8 requirement table written independently in the harness.",
-    "assumptions": ["observation point is Operation::new (what Session::rpc calls before anything is written); that rpc() writes iff "
-                    "Operation::new succeeded is covered by the C05 session harnesses",
-                    "edit-config with target=startup is accepted with :startup as the code does (RFC 6241 8.7.5 does not list it; not decided here)",
-                    "URL parsing (iri-string) runs on three concrete URLs only"],
-    "harnesses": [
-        harness(n, functions=f, bounds=C09_BOUNDS, target="c09_%d" % (i % 8), timeout={"quick": 900, "thorough": 2400}) for i, (n, f) in enumerate([
-            ("c09_get_op", ["Get::new", "get::Builder::filter/finish", "Filter::try_use"]),
-            ("c09_get_config_running", ["GetConfig::new", "get_config::Builder::source/filter/finish", "Datastore::try_as_source", "Filter::try_use"]),
-            ("c09_get_config_candidate", ["get_config::Builder::source/filter/finish"]),
-            ("c09_get_config_startup", ["get_config::Builder::source/filter/finish"]),
-            ("c09_lock_unlock", ["Lock::new", "Unlock::new", "lock::Builder::target/finish", "Datastore::try_as_lock_target"]),
-            ("c09_commit_plain", ["Commit::new", "commit::Builder::confirmed/confirm_timeout/finish"]),
-            ("c09_commit_persist", ["commit::Builder::persist/finish"]),
-            ("c09_commit_persist_id", ["commit::Builder::persist_id/finish"]),
-            ("c09_commit_persist_both", ["commit::Builder::persist/persist_id/finish"]),
-            ("c09_simple_ops", ["CancelCommit::new", "DiscardChanges::new", "KillSession::new", "CloseSession::new"]),
-            ("c09_validate", ["Validate::new", "validate::Builder::source/config/finish", "Datastore::try_as_source"]),
-            ("c09_delete_config", ["DeleteConfig::new", "delete_config::Builder::target/finish", "Datastore::try_as_target"]),
-            ("c09_copy_config_to_running", ["CopyConfig::new", "copy_config::Builder::target/source/config/finish"]),
-            ("c09_copy_config_to_candidate", ["copy_config::Builder::target/source/config/finish"]),
-            ("c09_copy_config_to_startup", ["copy_config::Builder::target/source/config/finish"]),
-            ("c09_edit_config_target", ["EditConfig::new", "edit_config::Builder::target/config/finish", "Datastore::try_as_target"]),
-            ("c09_edit_config_test_option", ["edit_config::Builder::test_option", "TestOption::try_use"]),
-            ("c09_edit_config_error_option", ["edit_config::Builder::error_option", "ErrorOption::try_use"]),
-            ("c09_url_file", ["Url::try_new", "edit_config::Builder::url", "delete_config::Builder::url"]),
-            ("c09_url_ftp", ["Url::try_new"]),
-            ("c09_url_http", ["Url::try_new"]),
-            ("c09_operation_new_gate", ["Operation::new (trait default method, instantiated for DiscardChanges)"]),
-            ("c09_junos_ops", ["OpenConfiguration::new", "CloseConfiguration::new", "LockConfiguration::new", "UnlockConfiguration::new", "CommitConfiguration::new"]),
-        ])
+                bounds="strict prefix of one message (payload<=2) then Eof/Abort, 1 poll, 32-byte buffer", loops=FRAMING_LOOPS, stubbing=True, timeout={"quick": 900, "thorough": 2400}),
+        harness("c07_junos_local_disconnect", functions=["transport::junos_local::Receiver::recv"], bounds="as c07_tls_disconnect", loops=FRAMING_LOOPS, stubbing=True,
+                timeout={"quick": 900, "thorough": 2400}),
     ],
 }
 
